@@ -128,6 +128,9 @@ def check(run):
     order(run, p, funcs)
     memo(run, p)
     argmut(run, p)
+    from .c03 import evidence
+    evidence(run, p, 'C14-EVIDENCE')
+    run.rules['C14-EVIDENCE'] += ' (a cap on what is seen would make the class chosen depend on which examples come first)'
     from .common import observed_rule
     n = observed_rule(run, 'C14-OBSERVED', p, [f for f in funcs if f.cls is None],
                       'the Series form is the list of values present: pdextract and the other module-level entry functions never take '
